@@ -1940,6 +1940,71 @@ fn jb_holds(lo: &JB, hi: &JB, hv: i128) -> bool {
         && (match hi { JB::Unb => true, JB::Val(true, _, b) => hv <= 2 * *b, JB::Val(false, _, b) => hv < 2 * *b, JB::F(true, h) => hv <= *h as i128, JB::F(false, h) => hv < *h as i128 })
 }
 
+/// values of `attrs.<key>` per source segment (commit chunk) that survives until the merge: chunks whose
+/// documents are all deleted are dropped before; deleted documents of a surviving chunk still count
+fn json_sources(spec: &CorpusSpec, key: usize) -> Vec<Vec<i128>> {
+    let deleted: BTreeSet<u64> = spec.deletes.iter().map(|x| x.1).collect();
+    let mut out = vec![];
+    let mut pos = 0usize;
+    for n in &spec.chunks {
+        let docs = &spec.docs[pos..(pos + n).min(spec.docs.len())];
+        pos = (pos + n).min(spec.docs.len());
+        if docs.is_empty() || docs.iter().all(|d| deleted.contains(&d.id)) { continue; }
+        let vals: Vec<i128> = docs.iter().filter_map(|d| d.attrs.as_ref().and_then(|a| a.iter().find(|(k, _)| *k == key)).map(|(_, v)| match v {
+            JVal::Int(i) => *i as i128, JVal::UInt(u) => *u as i128, JVal::Half(h) => *h as i128, _ => 0 })).collect();
+        out.push(vals);
+    }
+    out
+}
+
+/// number of source segments alive at merge time
+fn surviving_chunks(spec: &CorpusSpec) -> usize {
+    let deleted: BTreeSet<u64> = spec.deletes.iter().map(|x| x.1).collect();
+    let mut pos = 0usize;
+    let mut n_alive = 0;
+    for n in &spec.chunks {
+        let docs = &spec.docs[pos..(pos + n).min(spec.docs.len())];
+        pos = (pos + n).min(spec.docs.len());
+        if !docs.is_empty() && !docs.iter().all(|d| deleted.contains(&d.id)) { n_alive += 1; }
+    }
+    n_alive
+}
+
+/// write-time column type of a set of values of `attrs.<key>` (key n: supplied as i64, u: as u64, x: as f64)
+fn written_col(key: usize, vals: &[i128]) -> &'static str {
+    if key == 4 { "f" } else if key == 1 || vals.iter().all(|v| *v < i64::MAX as i128) { "i" } else { "u" }
+}
+
+/// predicted column type of `attrs.<key>` in final segment `si` (None: no column)
+fn predicted_col(ctx: &mut Ctx, spec: &CorpusSpec, b: &Built, key: usize, si: usize) -> Option<String> {
+    if spec.merge && surviving_chunks(spec) >= 2 {
+        // one merged segment: the merger types the column from the (min, max) of every source column
+        let srcs: Vec<String> = json_sources(spec, key).iter().filter(|v| !v.is_empty())
+            .map(|v| format!("{}:{}:{}", written_col(key, v), v.iter().min().unwrap(), v.iter().max().unwrap())).collect();
+        if srcs.is_empty() { return None; }
+        Some(ctx.model.ask(&format!("C03 jmerge {}", srcs.join(","))))
+    } else {
+        let vals: Vec<i128> = b.segs[si].iter().filter_map(|(d, _)| d.fast.iter().find(|(f, _)| *f == F_JSON_FAST0 + key as u32)
+            .map(|(_, v)| if key == 1 { (*v as i128) - (1i128 << 63) } else if key == 4 { (*v as i128) - (1i128 << 60) } else { *v as i128 })).collect();
+        if vals.is_empty() { None } else { Some(written_col(key, &vals).to_string()) }
+    }
+}
+
+/// the numeric column type of `attrs.<key>` the segment really has
+fn real_col(r: &tantivy::SegmentReader, key: usize) -> Result<Option<&'static str>, String> {
+    use tantivy::columnar::ColumnType;
+    let hs = r.fast_fields().dynamic_column_handles(&format!("attrs.{}", JKEYS[key])).map_err(|e| e.to_string())?;
+    let mut found = None;
+    for h in hs {
+        let t = match h.column_type() { ColumnType::I64 => Some("i"), ColumnType::U64 => Some("u"), ColumnType::F64 => Some("f"), _ => None };
+        if let Some(t) = t {
+            if found.is_some() { return Err("two numerical columns for one path".into()); }
+            found = Some(t);
+        }
+    }
+    Ok(found)
+}
+
 /// one (corpus, path, bounds) case; the corpus holds only the JSON field
 fn check_json_range_case(ctx: &mut Ctx, spec: &CorpusSpec, b: &Built, key: usize, lo: &JB, hi: &JB) {
     let case = json!({"kind": "json-range", "corpus": spec, "key": key, "lo": lo, "hi": hi});
@@ -1958,12 +2023,13 @@ fn check_json_range_case(ctx: &mut Ctx, spec: &CorpusSpec, b: &Built, key: usize
     let mut f64_upper_below_min = false;
     // a fractional bound is replaced by Included(trunc): wrong for a positive lower / negative upper bound
     let f64_fract = matches!(lo, JB::F(_, h) if *h > 0 && *h % 2 != 0) || matches!(hi, JB::F(_, h) if *h < 0 && *h % 2 != 0);
-    for seg in &b.segs {
+    for (si, seg) in b.segs.iter().enumerate() {
         let vals: Vec<(u64, bool, i128)> = seg.iter().filter_map(|(d, alive)| value_of(d).map(|v| (d.id, *alive, v))).collect();
         if vals.is_empty() { continue; }
+        let pcol = predicted_col(ctx, spec, b, key, si).unwrap_or_else(|| "i".into());
         // key "n" holds values supplied as i64, key "u" values supplied as u64: a u64-supplied value keeps
         // the column i64 only when it is strictly below i64::MAX (columnar accept_value)
-        let col = if key == 4 { "f" } else if key == 1 || vals.iter().all(|x| x.2 < i64::MAX as i128) { "i" } else { "u" };
+        let col: &str = &pcol;
         if col == "i" { if let JB::Val(_, true, v) = lo { if *v > i64::MAX as i128 { u64_lower_on_i64 = true; } } }
         if col == "u" { if let JB::F(_, h) = hi { if *h < 0 { f64_upper_below_min = true; } } }
         let list = vals.iter().map(|x| x.2.to_string()).collect::<Vec<_>>().join(",");
@@ -1973,7 +2039,7 @@ fn check_json_range_case(ctx: &mut Ctx, spec: &CorpusSpec, b: &Built, key: usize
             ctx.report.violation("model", "C03:model-rejected-request", format!("jrange answered {ans}"), case.clone());
             return;
         }
-        if parts[2] != "1" {
+        if parts[2] != "1" && !(spec.merge && surviving_chunks(spec) >= 2) {
             ctx.report.violation("model", "C03:json-column-type-model-vs-harness", format!("column type {col} not predicted by colOf for {list}"), case.clone());
         }
         for (i, x) in vals.iter().enumerate() {
@@ -2043,10 +2109,20 @@ fn check_json_ranges(ctx: &mut Ctx, n_corpora: u64, n_queries: usize) {
         let mut left = n;
         for sidx in 0..nseg { let c = if sidx + 1 == nseg { left } else { 1 + rng.usize_below(left.max(2) - 1) }; chunks.push(c.min(left)); left -= c.min(left); }
         let deletes = if rng.chance(1, 2) { vec![(chunks.len() - 1, 1000 + rng.below(n as u64))] } else { vec![] };
-        let _ = rng.chance(1, 4);
-        // no merge here: the column type of a merged segment follows the merger's own coercion rule
-        let spec = CorpusSpec { docs, chunks, cut: 0, deletes, merge: false };
+        let merge = rng.chance(1, 4);
+        let spec = CorpusSpec { docs, chunks, cut: 0, deletes, merge };
         let b = match build(&spec) { Ok(b) => b, Err(e) => { ctx.report.violation("oracle", "C03:index-build-failed", e, json!({"kind":"corpus","corpus":spec})); continue; } };
+        // the column type of every numeric path in every final segment: written (colOf) or merged (mergedCol)
+        for (si, r) in b.searcher.segment_readers().iter().enumerate() {
+            for key in [1usize, 3, 4] {
+                let pred = predicted_col(ctx, &spec, &b, key, si);
+                let real = real_col(r, key);
+                ctx.report.count(&format!("json-column-type:{}{}", real.clone().ok().flatten().unwrap_or("none"), if spec.merge && surviving_chunks(&spec) >= 2 { ":merged" } else { "" }));
+                if real != Ok(pred.as_deref().map(|x| match x { "i" => "i", "u" => "u", _ => "f" })) {
+                    ctx.report.violation("model", "C03:json-column-type-model-vs-implementation", format!("segment {si} attrs.{}: real column type {:?}, model {:?}", JKEYS[key], real, pred), json!({"kind":"corpus","corpus":spec}));
+                }
+            }
+        }
         for _ in 0..n_queries {
             let key = *rng.pick(&[1usize, 3, 4]);
             let is_u = rng.chance(1, 2);
